@@ -424,6 +424,9 @@ func genWorld(seed uint64, r *simrt.Rand, p *Profile) WorldCfg {
 		w.PCTDepth = 1 + r.Intn(3)
 		w.PCTLen = 200 + r.Intn(3000)
 	}
+	if w.Policy != "seq" {
+		w.SelectOrder = []string{"", "", "", "source", "reverse"}[r.Intn(5)]
+	}
 	if w.Policy != "seq" && r.Bool(0.3) {
 		w.StallProb = 0.002
 		w.StallMax = time.Duration(1+r.Intn(40)) * time.Millisecond
